@@ -154,6 +154,39 @@ CLAIMED = {
    note="Partial: scenario level is fault enumeration (single faults, exhaustive in k), not proof; faults are injected by -Wl,--wrap in the "
         "harness and by an LD_PRELOAD shim for the tools; errno-specific behaviour beyond EINTR is not distinguished.",
    technique="Lean 4 proof (case analysis over fault outcomes, write-append lemma, induction over the read loop) + exhaustive single-fault injection as search and correspondence"),
+ 'C04': dict(
+   text="PARTIAL proof (Lean 4) about the model of the update procedure (what zck_dl.c's main does: header fetch, scan, copy, "
+        "reset, missing-range loop, truncate, validate) on top of the models of the parser, validator, copier, range builder and "
+        "download callbacks, for an ARBITRARY initial target, hash function, regex answers, limit and fragment size: every "
+        "transfer and the whole fetch loop keep every valid chunk valid with its bytes untouched and mark a chunk valid only "
+        "when the bytes at its extent hash to its index checksum (loop_sound, by induction over rounds from C05's theorems); "
+        "a loop that ends without error has no missing chunk; requests are zck_get_missing_range of the current marks (C10: "
+        "exactly extents of chunks marked missing).  NOT proved: that an honest server's response makes every requested chunk "
+        "valid (termination with target == B, exact request set).  That is decided on explored inputs: the procedure is run "
+        "in-process with the real library against a reference server with every request logged, and judged (target == B, "
+        "validation 1, requested bytes == extents of chunks neither verified-present nor available from A, none twice) over "
+        "file pairs x initial targets x limits {1,2,3,7,127,255,-1} x fragmentations, with the model run on the same inputs.",
+   design_ref="DESIGN.md section 7 C04",
+   note="Partial: completeness/termination/exactness are checked (correspondence + predicate on the implementation), soundness is "
+        "proved. libcurl and zckdl's own plumbing (range back-off, --fail-no-ranges) are not modelled; the in-process procedure "
+        "mirrors zckdl's call sequence.",
+   technique="Lean 4 proof (loop invariant 'valid => present' lifted from the callback theorems by induction over rounds) + "
+             "differential correspondence of the whole procedure with logged requests"),
+ 'C11': dict(
+   text="PARTIAL proof (Lean 4): the only state surviving an interruption is the target file, and the model of the procedure and "
+        "every C04/C05/C09 theorem quantify over an ARBITRARY initial target; stated for crash states (the target after k complete "
+        "writes of any write trace and a (k+1)-th cut after j bytes): the restart marks a chunk valid only if the bytes at its "
+        "extent hash to its checksum (no partially written chunk is trusted), chunks the restart finds valid are never modified by "
+        "later transfers, the scan trusts a chunk exactly when all its stored bytes are there and hash to the checksum.  NOT proved "
+        "(as C04): convergence to B.  Decided on explored inputs: the real library is run in-process with the k-th write(2) on the "
+        "target cut short (none/half/all bytes) and the run abandoned, for EVERY k of small scenarios and for chains of 2-5 "
+        "interruptions; the restart is judged from the target as the interruption left it: converges to B, its scan trusts only "
+        "verified-present chunks, its requests are exactly the chunks not present and not available from A.",
+   design_ref="DESIGN.md section 7 C11",
+   note="Partial: convergence and no-refetch are checked on every kill point explored, not proved; process death is modelled as "
+        "abandoning the contexts inside write(2) (siglongjmp), torn writes below write(2) granularity are not considered.",
+   technique="Lean 4 proof (corollaries of the C04/C05/C09 theorems, which quantify over arbitrary initial targets) + exhaustive "
+             "kill-point enumeration over write(2) calls as correspondence and search"),
  'C05': dict(
    text="PARTIAL proof (Lean 4) about the model of dl.c/multipart.c (dl_write, set_chunk_valid, zero_chunk, dl_write_range, "
         "multipart_extract, multipart_get_boundary, gen_regex, zck_write_chunk_cb, zck_header_cb), for an ARBITRARY hash function, ARBITRARY "
